@@ -18,8 +18,8 @@ from concurrent.futures import ProcessPoolExecutor
 
 import z3
 
-Z3_TIMEOUT_MS = int(os.environ.get("PYVC_Z3_MS", "10000"))
-CLI_TIMEOUT_S = int(os.environ.get("PYVC_CLI_S", "20"))
+Z3_TIMEOUT_MS = int(os.environ.get("PYVC_Z3_MS", "30000"))
+CLI_TIMEOUT_S = int(os.environ.get("PYVC_CLI_S", "10"))
 
 
 def _cli(cmd, text, timeout):
@@ -91,6 +91,17 @@ def solve_text(args):
     if not cli:
         return dict(status="unknown", backend="z3-5.1", ms=ms, model=None, detail=reason)
     t0 = time.time()
+    if refute:
+        for k in (2, 3):
+            ft = finite_scope(text, k)
+            if ft == text:
+                break
+            try:
+                r2, ms2, mt2, _ = _fresh_check(ft, 5000, seed)
+            except z3.Z3Exception:
+                break
+            if r2 == "sat":
+                return dict(status="refuted", backend=f"z3-5.1 finite-scope k={k}", ms=ms + ms2, model=mt2, detail="")
     out = _cli(["/usr/bin/cvc5", "--strings-exp", f"--tlimit={CLI_TIMEOUT_S * 1000}"], "(set-logic ALL)\n" + text, CLI_TIMEOUT_S)
     if out == "unsat":
         return dict(status="discharged", backend="cvc5-1.0.3", ms=ms + (time.time() - t0) * 1000, model=None, detail="")
@@ -113,21 +124,84 @@ def solve_text(args):
     return dict(status="unknown", backend="z3-5.1,cvc5-1.0.3,z3-4.8.12", ms=ms + (time.time() - t0) * 1000, model=None, detail=reason)
 
 
+MAX_UNDECIDED_PER_LABEL = int(os.environ.get("PYVC_MAX_UNDECIDED_PER_LABEL", "2"))
+
+
 def discharge_all(obligations, axioms, seed=0, refute=True, jobs=None, pool=None, cli=True):
     todo = [o for o in obligations if o.status is None]
+    if jobs == 1 and pool is None and len(todo) > 1:
+        return _discharge_sequential(todo, obligations, axioms, seed, refute, cli)
     texts = [(o.smt2(axioms), seed, refute, cli) for o in todo]
     if not todo:
         return obligations
     jobs = jobs or min(16, os.cpu_count() or 4)
+    # identical VCs (same assumptions and goal up to the names of fresh symbols on different paths) are solved once
+    import re as _re
+
+    def _norm(t):
+        # alpha-renaming of the fresh symbols `hint!N` in order of first appearance (sound: a bijective renaming)
+        seen = {}
+
+        def r(m):
+            k = m.group(0)
+            if k not in seen:
+                seen[k] = f"{m.group(1)}!#{len(seen)}"
+            return seen[k]
+
+        return _re.sub(r"([A-Za-z_][A-Za-z0-9_.\[\]]*)!([0-9]+)", r, t[0])
+
+    uniq, index = {}, []
+    for t in texts:
+        k = _norm(t)
+        if k not in uniq:
+            uniq[k] = len(uniq)
+        index.append(uniq[k])
+    first = {}
+    for t, i in zip(texts, index):
+        first.setdefault(i, t)
+    utexts = [first[i] for i in range(len(uniq))]
     if pool is not None:
-        results = list(pool.map(solve_text, texts, chunksize=1))
-    elif jobs == 1 or len(todo) == 1:
-        results = [solve_text(t) for t in texts]
+        ures = list(pool.map(solve_text, utexts, chunksize=1))
+    elif jobs == 1 or len(utexts) == 1:
+        ures = [solve_text(t) for t in utexts]
     else:
         with ProcessPoolExecutor(max_workers=jobs) as ex:
-            results = list(ex.map(solve_text, texts, chunksize=1))
+            ures = list(ex.map(solve_text, utexts, chunksize=1))
+    results = [ures[i] for i in index]
     for o, r in zip(todo, results):
         o.status, o.backend, o.ms, o.model, o.detail = r["status"], r["backend"], r["ms"], r["model"], r["detail"]
+    return obligations
+
+
+def _discharge_sequential(todo, obligations, axioms, seed, refute, cli):
+    """One after the other with a memo for identical VCs; once an obligation label is undecided / refuted on
+    MAX_UNDECIDED_PER_LABEL paths the remaining paths of the same label are not attempted (they stay `unknown`), because an
+    undecided VC costs the full budget of all back ends."""
+    import re as _re
+
+    memo = {}
+    bad = {}
+    for o in todo:
+        key = (o.kind, o.label)
+        if bad.get(key, 0) >= MAX_UNDECIDED_PER_LABEL:
+            o.status, o.backend, o.ms, o.model, o.detail = "unknown", "-", 0.0, None, "not attempted: the same obligation is already undecided or refuted on other paths"
+            continue
+        text = o.smt2(axioms)
+        seen = {}
+
+        def r(m):
+            k = m.group(0)
+            if k not in seen:
+                seen[k] = f"{m.group(1)}!#{len(seen)}"
+            return seen[k]
+
+        nk = _re.sub(r"([A-Za-z_][A-Za-z0-9_.\\[\\]]*)!([0-9]+)", r, text)
+        if nk not in memo:
+            memo[nk] = solve_text((text, seed, refute, cli))
+        res = memo[nk]
+        o.status, o.backend, o.ms, o.model, o.detail = res["status"], res["backend"], res["ms"], res["model"], res["detail"]
+        if o.status != "discharged":
+            bad[key] = bad.get(key, 0) + 1
     return obligations
 
 
